@@ -356,6 +356,30 @@ DigestLen(m, plen, slen) ==
     [] m \in {"bcrypt","bcrypt_a","bcrypt_x","bcrypt_y"} -> 31
     [] m \in {"yescrypt","gost_yescrypt","scrypt"} -> 43
 
+
+\* ---- the significant projection of a passphrase (crypt(5)) ---------------
+\* p = sequence of byte values 1..255.  The result is what the method's hash depends on;
+\* two phrases with different keys must never produce the same digest (C03).
+Mask7(p) == [i \in 1..Len(p) |-> p[i] % 128]
+PadTo(p, n) == p \o [i \in 1..(n - Len(p)) |-> 0]
+CeilDiv8(n) == (n + 7) \div 8
+\* the method that really runs (bigcrypt forwards long phrase + short setting to descrypt)
+Effective(m, plen, slen) == IF m = "bigcrypt" /\ plen > 8 /\ slen <= 13 THEN "descrypt" ELSE m
+RECURSIVE Cyclic(_, _, _)
+Cyclic(q, i, n) == IF n = 0 THEN <<>> ELSE <<q[((i - 1) % Len(q)) + 1]>> \o Cyclic(q, i + 1, n - 1)
+PhraseKey(m0, p, slen) ==
+  LET m == Effective(m0, Len(p), slen) IN
+  CASE m = "descrypt" -> <<"des">> \o PadTo(Mask7(Take(p, 8)), 8)
+    [] m = "bigcrypt" -> LET q == Take(p, 128)  segs == Max(1, Min(16, CeilDiv8(Len(p)))) IN
+                         <<"big", segs>> \o PadTo(Mask7(q), 8 * segs)
+    [] m = "bsdicrypt" -> LET blocks == Max(1, CeilDiv8(Len(p))) IN <<"bsdi", blocks>> \o PadTo(Mask7(p), 8 * blocks)
+    [] m \in {"bcrypt", "bcrypt_a", "bcrypt_x", "bcrypt_y"} -> <<"bf">> \o Cyclic(p \o <<0>>, 1, 72)
+    [] OTHER -> <<"all">> \o p
+\* the legacy bcrypt variants have documented sign-extension quirks for 8-bit bytes: no claim there
+QuirkFree(m, p) == ~(m \in {"bcrypt_x", "bcrypt_a"} /\ \E i \in 1..Len(p) : p[i] >= 128)
+\* the digest part of a hash of method m
+DigestTail(m, h, plen, slen) == LET n == DigestLen(m, plen, slen) IN SubSeq(h, Len(h) - n + 1, Len(h))
+
 \* separator between canon and digest ("$" for the MCF methods, "$" doubled for NT, nothing for DES/bcrypt)
 SepOf(m) == CASE m \in {"descrypt","bigcrypt","bsdicrypt","bcrypt","bcrypt_a","bcrypt_x","bcrypt_y"} -> <<>>
               [] OTHER -> <<36>>
